@@ -1,5 +1,5 @@
 SPEC = {
-    "lean_modules": ["AM.Props.C15"],
+    "lean_modules": ["AM.Props.C07", "AM.Props.C15"],
     "theorems": [
         # calendar (AM.Base.Calendar)
         "AM.Calendar.civil_roundtrip", "AM.Calendar.civil_roundtrip_inv", "AM.Calendar.civil_valid",
@@ -28,6 +28,8 @@ SPEC = {
     ],
     "engines": [
         {"name": "timeint", "pkg": "./timeint", "search_cases": 6000},
+        # which interval names gate a route is decided by the routing tree: a route uses its OWN mute/active intervals, never an ancestor's (C07's engine)
+        {"name": "route", "pkg": "./route", "search_cases": 20000, "quick_cases": 2500, "only": ["inherit_spec"]},
     ],
     "rule": "interval specifications rendered as YAML (flow quoted / flow plain / block) or JSON and parsed by the real unmarshallers and config.Load "
             "(weekday names and ranges, negative and mixed days of month, month names and numbers, years, 1-3 time ranges incl. 24:00, locations, "
